@@ -79,8 +79,3 @@ Definition strength_ok (kd : keydata) : Prop :=
   /\ (is_url kd url_rsa_pss_pub -> rsa_strong fs)
   /\ (is_url kd url_ecdsa_pub -> ecdsa_params_strong (get_sub 2 fs))
   /\ (is_url kd url_ecdsa_priv -> ecdsa_params_strong (get_sub 2 (get_sub 2 fs))).
-
-(* the RSA public exponent of the key fits 64 bits (the part of the RSA
-   clause the code does enforce, see C14_rsa_exponent_truncation) *)
-Definition exponent_fits_64 (kd : keydata) : Prop :=
-  be_val (get_len 4 (vfields kd)) < 18446744073709551616.
